@@ -471,6 +471,12 @@ def checkAmbL (ic : Interceptors) : List Node → Bytes → Bool → Except Err 
           match ← Node.checkAmb ic c rest true with
           | some h => return some h
           | none => checkAmbL ic cs pat has
+        else if c.seg.isAmbiguousPrefix s0 then
+          -- D33 repair: `c` is the upper half of a split parameter node; go on below it with what follows its literal text
+          let rest ← sliceE 252 pat (s0.value.length - s0.suffix.length + c.seg.suffix.length) pat.length
+          match ← Node.checkAmb ic c rest true with
+          | some h => return some h
+          | none => checkAmbL ic cs pat has
         else checkAmbL ic cs pat has
 end
 
